@@ -165,6 +165,14 @@ class Ctx:
     def nontrivial(self, key):
         self.nt.add(case_hash(key))
 
+    _sample_calls = 0
+
+    def maybe_sample(self, obj, every=500):
+        """keep the first case seen and then one case every `every` calls (up to MAX_SAMPLES per shard)"""
+        self._sample_calls += 1
+        if self._sample_calls == 1 or self._sample_calls % max(1, every // 8) == 0:
+            self.sample(obj)
+
     def sample(self, obj, force=False):
         if len(self.samples) < MAX_SAMPLES or force:
             self.samples.append(jsonable(obj))
@@ -474,7 +482,7 @@ def run_property(mod_name, prop_id, tier, seed, nshards=None):
         for k, v in r["classes"].items():
             classes[k] = classes.get(k, 0) + v
         nt.update(r["nt"])
-        for s in r["samples"]:
+        for s in r["samples"][:2]:
             if len(samples) < MAX_SAMPLES:
                 samples.append(s)
         for f in r["failures"]:
